@@ -28,6 +28,49 @@ fn main() {
         }
         Some("worker") => std::process::exit(supervisor::worker(&args[2..])),
         Some("replay") => std::process::exit(supervisor::replay_file(&args[2])),
+        Some("bench-canon") => {
+            // micro-benchmark of the digest pipeline on one mid-history state
+            use crate::core::World;
+            let progs = graph::families::family("c01/catalogue", plan::Tier::Quick);
+            let cfg = Cfg { profile: profile(), handler_order: Some(true), armed: vec!["C01"] };
+            let mut w = graph::world::GraphWorld::new(&progs[0], &cfg);
+            for _ in 0..4 {
+                let acts = w.enabled();
+                let a = acts[acts.len() / 2].clone();
+                let _ = w.step(&a, false);
+                let _ = w.step(&graph::prog::Act::Stabilise, false);
+            }
+            let n = 100_000;
+            let t = Instant::now();
+            let mut len = 0;
+            for _ in 0..n {
+                len += w.state.verif_dump().len();
+            }
+            println!("verif_dump: {:.2} us ({} bytes)", t.elapsed().as_secs_f64() * 1e6 / n as f64, len / n);
+            let d = w.state.verif_dump();
+            let t = Instant::now();
+            for _ in 0..n {
+                len += canonicalise_dump(&d).len();
+            }
+            println!("canonicalise(engine dump): {:.2} us", t.elapsed().as_secs_f64() * 1e6 / n as f64);
+            let t = Instant::now();
+            for _ in 0..n {
+                len += w.model.dump().len();
+            }
+            println!("model.dump: {:.2} us", t.elapsed().as_secs_f64() * 1e6 / n as f64);
+            let c = w.canon().unwrap();
+            let t = Instant::now();
+            let mut x = 0u64;
+            for _ in 0..n {
+                x ^= hash128(&c).0;
+            }
+            println!("hash128: {:.2} us ({} bytes) {x}", t.elapsed().as_secs_f64() * 1e6 / n as f64, c.len());
+            let t = Instant::now();
+            for _ in 0..n {
+                len += w.canon().unwrap().len();
+            }
+            println!("canon total: {:.2} us {len}", t.elapsed().as_secs_f64() * 1e6 / n as f64);
+        }
         Some("plan-table") => {
             // markdown table of what every check runs (for DESIGN.md)
             for p in plan::ALL_PROPERTIES {
